@@ -198,6 +198,7 @@ func driveConvert(s *shardSet, rng *rand.Rand, thorough bool) ([]string, map[str
 	driveBigConvert(s, rng, thorough)
 	driveConvertBig(s, rng, thorough)
 	driveConvertSameArray(s, rng, thorough)
+	driveZeroSigns(s)
 	driveConvertReusedDst(s, rng, thorough)
 	// the same kind of work from several goroutines at once, on buffers that share nothing: a conversion may not
 	// depend on what other goroutines convert (scratch buffers, tables, pools shared between calls)
@@ -714,5 +715,24 @@ func driveHugeSlice(s *shardSet, rng *rand.Rand, thorough bool) {
 		w.AppendSample(4, w.NextStamp())
 		w.Sample(0, 13)
 		w.NoObs, w.Blind = false, false
+	}
+}
+
+// driveZeroSigns: FloatAsFloat must transfer the SIGN of a zero: -0 into a fresh (+0) destination, +0 over a
+// destination holding -0, for all four float pairs (a store skipped because old and new compare equal would show).
+func driveZeroSigns(s *shardSet) {
+	nz := math.Copysign(0, -1)
+	for _, sty := range []string{"float32", "float64"} {
+		for _, dty := range []string{"float32", "float64"} {
+			w := s.Next()
+			w.Reset()
+			w.Alloc(sty, 1, 4, 4)
+			w.WriteFloats(0, []float64{nz, 0, nz, 1})
+			w.Alloc(dty, 1, 4, 4) // fresh: +0 everywhere
+			w.Convert("FloatAsFloat", 0, 1)
+			w.WriteFloats(1, []float64{nz, nz, nz, nz})
+			w.WriteFloats(0, []float64{0, 0, nz, 0})
+			w.Convert("FloatAsFloat", 0, 1)
+		}
 	}
 }
